@@ -147,3 +147,12 @@ claim(
     "finite decision tables by abstract interpretation; abstract interpretation on arrays of free symbols with entry-wise polynomial identity against the documented mirror index map",
     "DESIGN.md §5 C32",
 )
+
+claim(
+    "C35",
+    "proof",
+    "Identities over the reals / Gaussian rationals for all pole parameters, time steps and frequencies: compute_pole_coefficients_per_axis and _tensor (per-axis and oriented rows) interpreted on a pole with symbolic per-axis (w0, g, a, b) return the documented c1..c4 on every accepting path (tensor entries on diagonal slots 4*axis, zero off-diagonal, oriented K dt^2/D u u^T), every path of the guard is enumerated and raises exactly when a coupled axis has w0*dt >= 2; feeding those expressions into susceptibility_from_coefficients gives exactly (a - i w b)/(w0^2 - w^2 - i g w) per axis on the occupied-slot branch, the occupied-slot mask is implied by c3 != 0 or c4 != 0 (full truth table), all-zero slots give 0; Lorentz / Drude / CCPR accessor tables and DispersionModel.susceptibility_axes equal the declared pole forms; the four Jury margin identities hold, so under the guard no recurrence root lies outside the unit circle. The O((w dt)^2) convergence rate is not decided.",
+    TB + "; numpy in-place item assignment model; path enumeration of the guard; real/imag/conj/abs on Gaussian-rational normal forms",
+    "abstract interpretation with exhaustive path enumeration of symbolic guards; polynomial identity over Q(i); boolean truth table of the occupied-slot mask",
+    "DESIGN.md §5 C35",
+)
